@@ -325,7 +325,8 @@ def realcli(args):
                 open(real, "wb").write(data)
                 os.chmod(real, mode)
             else:
-                os.symlink(target, real)
+                # an absolute target inside the simulated tree is relocated together with the tree
+                os.symlink(base.encode() + target if target.startswith(b"/w/") else target, real)
             os.lchown(real, euid, euid)
             # parents created on the way belong to the user as well
             par = os.path.dirname(real)
@@ -366,7 +367,10 @@ def realcli(args):
                 st = os.lstat(full)
                 import stat as S
                 if S.S_ISLNK(st.st_mode):
-                    real_tree[rel] = ("l", 0, int(st.st_mtime), "0:0", os.readlink(full))
+                    tg = os.readlink(full)
+                    if tg.startswith(base.encode() + b"/w/"):
+                        tg = tg[len(base.encode()):]
+                    real_tree[rel] = ("l", 0, int(st.st_mtime), "0:0", tg)
                 elif S.S_ISDIR(st.st_mode):
                     real_tree[rel] = ("d", st.st_mode & 0o7777, int(st.st_mtime), "0:0", b"")
                 else:
